@@ -165,7 +165,7 @@ def build_mirror(root, crates, extra_includes=None):
             target = os.path.join(mirror, CRATES[crate][1], src_rel)
             if not os.path.isfile(target):
                 raise SystemExit(f"INCONCLUSIVE: harness target {target} does not exist in /repo's tree")
-            body = "\n\n#[cfg(kani)]\n#[allow(unused_imports, dead_code, unused_variables, unused_mut, clippy::all)]\nmod verif_kani {\n    use super::*;\n"
+            body = "\n\n#[cfg(kani)]\n#[allow(unused_imports, dead_code, unused_variables, unused_mut, clippy::all)]\npub(crate) mod verif_kani {\n    use super::*;\n"
             for f in files:
                 body += f'    include!("{f}");\n'
             for f in (extra_includes or {}).get((crate, src_rel), []):
@@ -418,8 +418,31 @@ def match_known(known, prop, h, failed):
 # --------------------------------------------------------------------------
 # main
 # --------------------------------------------------------------------------
+def do_setup():
+    """Offline sanity check of the tool chain (nothing is downloaded or built into /verif)."""
+    ok = True
+    for tool in (["cargo", "kani", "--version"], ["cbmc", "--version"], ["rsync", "--version"]):
+        try:
+            r = subprocess.run(tool, stdout=subprocess.PIPE, stderr=subprocess.STDOUT, env=kani_env(), timeout=120)
+            line = r.stdout.decode(errors="replace").splitlines()[0] if r.stdout else ""
+            log(f"setup: {' '.join(tool)} -> {line}")
+            ok = ok and r.returncode == 0
+        except Exception as e:  # noqa: BLE001
+            log(f"setup: {' '.join(tool)} failed: {e}")
+            ok = False
+    if not os.path.isdir(os.path.join(VERIF, "vendor", "backtrace")):
+        log("setup: note: vendor/backtrace missing (needed only for parser/kanata crate harnesses)")
+    reg = load_registry()
+    log(f"setup: {len(reg)} harnesses registered")
+    os.makedirs(EVIDENCE_DIR, exist_ok=True)
+    os.makedirs(REPLAY_DIR, exist_ok=True)
+    return 0 if ok else 1
+
+
 def main(argv):
     import argparse
+    if argv and argv[0] == "--setup":
+        return do_setup()
     ap = argparse.ArgumentParser()
     ap.add_argument("prop")
     ap.add_argument("--tier", default=os.environ.get("VERIF_TIER", "quick"))
